@@ -90,17 +90,17 @@ def run(ctx, report):
 
     # ------------------------------------------------------------------ R16-deepcopy
     r = report.rule("R16-deepcopy", floor=3, what="__deepcopy__ rebuilds every concrete class (arity) without re-validating, restoring the attributes")
-    for cls in classes:
+    from ..validators import ValidatorAnalysis
+    va = ValidatorAnalysis(facts)
+    for cls, op in [(c, o) for c in classes for o in ("deepcopy", "copy")]:
         dc = cls.lookup(prog, "__deepcopy__")
         if dc is None or dc[1] != "method":
-            r.instance({"class": cls.qualname, "__deepcopy__": "default protocol"})
-            continue
-        # symbolic object built with validation off
-        from ..vmodel import IbanModel
-        from ..validators import ValidatorAnalysis
-        va = ValidatorAnalysis(facts)
-        res = _deepcopy_paths(ctx, va, cls)
-        r.instance({"class": cls.qualname, "outcomes": sorted({(p.kind, p.exc_name) for p in res})})
+            dc = (cls, "method", cls.lookup(prog, "__new__")[2] if cls.lookup(prog, "__new__") else None)
+        # symbolic object built with validation off, copied through copy.deepcopy / copy.copy (= the pickle reconstruction path)
+        res = _deepcopy_paths(ctx, va, cls, op)
+        r.instance({"class": cls.qualname, "operation": op, "outcomes": sorted({(p.kind, p.exc_name) for p in res})})
+        opname = "copy.deepcopy" if op == "deepcopy" else "copy.copy / pickle"
+        where_ = dc[2].where if dc[2] is not None else cls.where
         lib_excs, other_excs = {}, {}
         for p in res:
             if p.kind == "raise":
@@ -108,20 +108,22 @@ def run(ctx, report):
             elif isinstance(p.value, Obj):
                 orig_keys = p.orig_attrs
                 if set(p.value.attrs) != set(orig_keys) or p.value.cls is not cls:
-                    r.finding(f"{cls.short}.__deepcopy__:state", f"deepcopy of a {cls.short} yields {p.value.cls.short} with attributes {sorted(p.value.attrs)}, "
-                              f"original has {sorted(orig_keys)}", dc[2].where)
+                    r.finding(f"{cls.short}.{op}:state", f"{opname} of a {cls.short} yields {p.value.cls.short} with attributes {sorted(p.value.attrs)}, "
+                              f"original has {sorted(orig_keys)}", where_)
                 elif p.value.strval != S:
-                    r.finding(f"{cls.short}.__deepcopy__:value", f"deepcopy of a {cls.short} carries the text {p.value.strval!r}, not the original's", dc[2].where)
+                    r.finding(f"{cls.short}.{op}:value", f"{opname} of a {cls.short} carries the text {p.value.strval!r}, not the original's", where_)
             else:
-                r.finding(f"{cls.short}.__deepcopy__:result", f"deepcopy of a {cls.short} returns {p.value!r}", dc[2].where)
+                r.finding(f"{cls.short}.{op}:result", f"{opname} of a {cls.short} returns {p.value!r}", where_)
         if lib_excs:
             p = next(iter(lib_excs.values()))
             w = p.lang.witness()
-            r.finding(f"{cls.short}.__deepcopy__:revalidates", f"copy.deepcopy of a {cls.short} re-runs validation (can raise {sorted(lib_excs)}), so an object built "
-                      "with validation off cannot be copied", dc[2].where, witness=(w[1] if w else None))
+            c_ = f"{cls.short}.__deepcopy__:revalidates" if op == "deepcopy" else f"{cls.short}.copy:revalidates"
+            r.finding(c_, f"{opname} of a {cls.short} re-runs validation (can raise {sorted(lib_excs)}), so an object built "
+                      "with validation off cannot be copied", where_, witness=(w[1] if w else None))
         for name, p in other_excs.items():
             e = p.value
-            r.finding(f"{cls.short}.__deepcopy__:{name}", f"copy.deepcopy of a {cls.short} raises {name} ({e.args[0] if e.args else ''}) at {e.where}", dc[2].where)
+            c_ = f"{cls.short}.__deepcopy__:{name}" if op == "deepcopy" else f"{cls.short}.copy:{name}"
+            r.finding(c_, f"{opname} of a {cls.short} raises {name} ({e.args[0] if e.args else ''}) at {e.where}", where_)
     report.not_decided += ["comparison operators inherited from str for operands the package does not define (library model)",
                            "the copy / pickle protocol itself is modelled (object.__reduce_ex__ -> cls.__new__(cls, *__getnewargs__()) then __dict__ update), not executed"]
 
@@ -149,7 +151,7 @@ def _check_getnewargs(ctx, rule, cls, required, total):
             rule.finding(f"{cls.short}.__getnewargs__", f"{cls.short}.__getnewargs__ returns {o.value!r} for BBAN('XY', 'ABCDEF'); a copy would not equal the original", g[2].where)
 
 
-def _deepcopy_paths(ctx, va, cls):
+def _deepcopy_paths(ctx, va, cls, op="deepcopy"):
     prog = ctx.program
     facts = ctx.facts
     from ..vmodel import nat_intrinsic
@@ -174,7 +176,8 @@ def _deepcopy_paths(ctx, va, cls):
             elif init is not None and init[1] == "method":
                 it.call_func(init[2], [obj, Sym("raw_text")], {"allow_invalid": True}, None)
             holder["attrs"] = dict(obj.attrs)
-            return it.call(it.getattr(obj, "__deepcopy__"), [{}], {})
+            from ..values import ExtRef
+            return it.call(ExtRef("copy.deepcopy" if op == "deepcopy" else "copy.copy"), [obj], {})
 
         try:
             outs = it.explore(thunk)
